@@ -35,7 +35,8 @@ GLOBAL_KINDS = [
     # (kind, prefix, value texts)
     ('int', 'K', ['3', '0', '-2', '7', '1001', '1', '12']),
     ('float', 'F', ['0.1', '2.5', '-0.0', '1e-3', '0.3', '6.0', "float('inf')", "float('nan')", '1e10', '-7.25']),
-    ('frac', 'Q', ['Fraction(1, 3)', 'Fraction(-5, 7)', 'Fraction(3, 8)']),
+    ('frac', 'Q', ['Fraction(1, 3)', 'Fraction(-5, 7)', 'Fraction(3, 8)', 'fp.Float(s=True, c=0, exp=0)', 'fp.Float(c=5, exp=-3)',
+                   'fp.Float(isnan=True)', 'fp.RealFloat(s=True, c=3, exp=-1)', 'fp.Float.from_float(0.1)', 'fp.Float(s=True, isinf=True)']),
     ('bool', 'B', ['True', 'False']),
     ('tuple', 'T', ['(1, 2.5)', '(0.1, -3)', '(7, 0.5)', '(-0.0, 1e-3)']),
     ('list', 'L', ['[1.5, 2, 7]', '[0.1, 0.2, 0.3, 0.4]', '[3]', '[0.5, -0.0]']),
@@ -69,9 +70,11 @@ class Gen9(progen.Gen):
         ch = self.ch
         n = ch.int(*self.n_globals)
         for i in range(n):
-            kind, prefix, texts = ch.weighted([(4, GLOBAL_KINDS[0]), (4, GLOBAL_KINDS[1]), (1, GLOBAL_KINDS[2]), (1, GLOBAL_KINDS[3]),
+            kind, prefix, texts = ch.weighted([(4, GLOBAL_KINDS[0]), (4, GLOBAL_KINDS[1]), (2, GLOBAL_KINDS[2]), (1, GLOBAL_KINDS[3]),
                                                (2, GLOBAL_KINDS[4]), (2, GLOBAL_KINDS[5]), (2, GLOBAL_KINDS[6])])
             self.gl.append((f'{prefix}{i}', kind, ch.choice(texts)))
+        if any(g[1] == 'frac' for g in self.gl):
+            self.features.add('captured-number-object')
 
     def _note_read(self, fn, name):
         if name in fn.env:      # shadowed: a local read
@@ -128,6 +131,12 @@ class Gen9(progen.Gen):
             hs = self._callable(fn)
             if hs:
                 h = ch.choice(hs)
+                ws = [g for g in hs if g[4] and g is not h]
+                two_r = [i for i, (_, t) in enumerate(h[1]) if t == 'R']
+                if ws and len(two_r) >= 2 and ch.bool(0.8):
+                    t = self.arg_order_call(fn, h, ch.choice(ws), two_r, d)
+                    if t is not None:
+                        return t
                 if h[4] and ch.bool(0.5):
                     # the same mutating helper twice in one expression, on the same list where possible
                     a = self.call_text(fn, h, d)
@@ -136,6 +145,40 @@ class Gen9(progen.Gen):
                     return f'({a} {ch.choice(["-", "+", "*", "/"])} {b})'
                 return self.call_text(fn, h, d)
         return super().expr_R(fn, d)
+
+    def arg_order_call(self, fn, h, g, r_idx, d):
+        """`h(g(L, ...), L[i], ...)`: g writes L, a later argument of h reads it -- the order in which the
+        arguments are evaluated and bound is observable."""
+        ch = self.ch
+        gl = [pn for pn, pt in g[1] if pt == 'L']
+        if not gl:
+            return None
+        need = max(g[5].get(pn, 0) for pn in gl)
+        cands = [l for l in self.vars_of(fn, 'L') if fn.len_lb.get(l, 0) >= max(1, need)]
+        if not cands:
+            return None
+        L = ch.choice(cands)
+        gargs = [L if pt == 'L' else self.expr_R(fn, 0) for pn, pt in g[1]]
+        inner = f'{g[0]}({", ".join(gargs)})'
+        first, second = r_idx[0], r_idx[1]
+        if ch.bool(0.3):
+            first, second = second, first      # the read comes first, the writing call second
+        args = []
+        for i, (pn, pt) in enumerate(h[1]):
+            if i == first:
+                args.append(inner)
+            elif i == second:
+                args.append(ch.choice([f'{L}[0]', f'sum({L})', f'{L}[{fn.len_lb[L] - 1}]']))
+            elif pt == 'L':
+                lc = [l for l in self.vars_of(fn, 'L') if fn.len_lb.get(l, 0) >= h[5].get(pn, 0)]
+                args.append(ch.choice(lc) if lc else '[' + ', '.join(self.expr_R(fn, 0) for _ in range(max(h[5].get(pn, 0), 1))) + ']')
+            else:
+                args.append(self.expr_R(fn, 0))
+        for x in (h, g):
+            self.calls.setdefault(fn.name, set()).add(x[0])
+            self.features.add('helper-without-ctx' if not x[3] else 'helper-with-own-ctx')
+        self.features.update({'helper-call', 'helper-mutates-list', 'call-arg-order-observable'})
+        return f'{h[0]}({", ".join(args)})'
 
     def call_text(self, fn, h, d):
         self.calls.setdefault(fn.name, set()).add(h[0])
@@ -173,7 +216,17 @@ class Gen9(progen.Gen):
         ctxargs = sorted(n for n in getattr(fn, 'ctxargs', ()) if n in fn.env)
         w = 0.30 if self.lift_bias else 0.08
         if depth > 0 and self.p.with_blocks and ch.bool(w):
-            k = ch.weighted([(3, 'def'), (5, 'use'), (3, 'upd'), (3, 'loopvar'), (2, 'asname')])
+            k = ch.weighted([(3, 'def'), (5, 'use'), (3, 'upd'), (3, 'loopvar'), (2, 'asname'), (2, 'ctxassign')])
+            if k == 'ctxassign':
+                # a context built by a plain assignment (its arguments are computed under the ACTIVE context), used later
+                text, safe = self.ctx_text(fn)
+                if not text.startswith('fp.') or '(' not in text:
+                    text, safe = 'fp.MPFloatContext(10 / 2, fp.RM.RTZ)', True
+                cv = fn.fresh('c')
+                out.append(f'{ind}{cv} = {text}')
+                fn.ctxvars[cv] = safe
+                self.features.add('ctx-by-assignment')
+                return False
             if k == 'def' or (k in ('use', 'upd') and not ctxargs):
                 n = fn.fresh('n')
                 out.append(f'{ind}{n} = {ch.int(2, 6)}')
@@ -295,8 +348,15 @@ class Gen9(progen.Gen):
         clash_params = (not is_main) and ch.bool(0.5)
         if clash_params:
             self.features.add('clash:param-names')
+        shape = None
+        if not is_main and p.lists and ch.bool(0.45):
+            # shapes that make argument order observable: a writer (L, R...) and a consumer with >= 2 real parameters
+            shape = ['L', 'R', 'R'][:ch.int(2, 3)] if len(self.helpers) % 2 == 0 else ['R', 'R', 'L'][:ch.int(2, 3)]
+            nparams = len(shape)
         for i in range(nparams):
             t = 'L' if (p.lists and ch.bool(0.4)) else 'R'
+            if shape is not None:
+                t = shape[i]
             pn = f'{"a" if (is_main or clash_params) else "p"}{i}'
             params.append((pn, t))
             if t == 'L':
@@ -462,7 +522,7 @@ def site_info(func):
     STORE_READ = (A.ListRef, A.ListSlice, A.Sum, A.AMax, A.AMin, A.ListComp, A.AnyOf, A.AllOf, A.Zip, A.Enumerate)
     infos = {}
     st = {'with': 0, 'loop': 0, 'comp': 0, 'cond_eval': 0, 'while_cond': 0, 'if_cond': 0, 'ctx_expr': 0,
-          'earlier_read': False, 'earlier_call': False, 'stmt_no': 0}
+          'earlier_read': False, 'earlier_call': False, 'earlier_write': False, 'stmt_no': 0}
     memo = {}
     try:
         locs, _free = local_names(func)
@@ -482,11 +542,22 @@ def site_info(func):
         def _visit_expr(self, e, ctx):
             if isinstance(e, A.Call) and isinstance(e.fn, Function):
                 cf = callee_facts(e.fn, memo)
+                inner = []
+
+                class _C(DefaultVisitor):
+                    def _visit_call(self, c, ctx):
+                        inner.append(c)
+                        super()._visit_call(c, ctx)
+                for a_ in e.args:
+                    _C()._visit_expr(a_, None)
+                args_write = any(isinstance(c.fn, Function) and callee_facts(c.fn, memo)['t_writes'] for c in inner)
                 infos[id(e)] = {
+                    'args_write': args_write,
                     'callee': e.fn.name, 'with': st['with'], 'loop': st['loop'] > 0, 'comp': st['comp'] > 0,
                     'cond_eval': st['cond_eval'] > 0, 'while_cond': st['while_cond'] > 0, 'if_cond': st['if_cond'] > 0,
                     'ctx_expr': st['ctx_expr'] > 0,
-                    'earlier_read': st['earlier_read'], 'earlier_call': st['earlier_call'], 'stmt_no': st['stmt_no'],
+                    'earlier_read': st['earlier_read'], 'earlier_call': st['earlier_call'], 'earlier_write': st['earlier_write'],
+                    'stmt_no': st['stmt_no'],
                     'own_ctx': cf['own_ctx'], 'writes': cf['writes'], 't_writes': cf['t_writes'], 'n_returns': cf['n_returns'],
                     'free_data': sorted(cf['free_data']), 't_free_data': sorted(cf['t_free_data']), 'depth': cf['depth'],
                     't_multi_return': cf['t_multi_return'],
@@ -499,10 +570,13 @@ def site_info(func):
             if isinstance(e, A.Call) and isinstance(e.fn, Function):
                 st['earlier_call'] = True
                 st['earlier_read'] = True
+                if callee_facts(e.fn, memo)['t_writes']:
+                    st['earlier_write'] = True
 
         def _visit_statement(self, stmt, ctx):
             st['earlier_read'] = False
             st['earlier_call'] = False
+            st['earlier_write'] = False
             st['stmt_no'] += 1
             return super()._visit_statement(stmt, ctx)
 
@@ -591,7 +665,7 @@ def site_class(info, recursive=True):
         return 'call-in-comprehension'
     if info['cond_eval']:
         return 'call-in-conditionally-evaluated-operand'
-    if info['earlier_read'] and info['t_writes']:
+    if (info['earlier_read'] and (info['t_writes'] or info.get('args_write'))) or info['earlier_write']:
         return 'body-hoisted-past-earlier-operand'
     if info['own_ctx']:
         return 'callee-own-ctx'
